@@ -194,3 +194,67 @@ package transports
 //@     assert [C11.stilloutstanding] p.dataCtx.v == ctx   // the data request stays outstanding while its packets are processed: an overlapping one is refused
 //@     assert [C02.kind] isBinary ==> typeis($data, *types.BytesBuffer)
 //@     assert [C02.kindtext] !isBinary ==> typeis($data, *types.StringBuffer)
+
+// ---- websocket transport (C01 outbound, C02 inbound, C12 close) --------------------------------------------------
+//@ spec wsOK(w *websocket) bool = w != nil && w.Transport != nil && wscOK(w.socket)
+
+// the reader: a frame is handed on only when it was read completely, as a buffer of the frame's kind; each frame once
+//@ func (*websocket).message()
+//@   props C02, C09
+//@   requires wsOK(w)
+//@   modifies *
+//@   loop 1 invariant wsOK(w)
+//@   callsite (*websocket).onMessage#1
+//@     assert [C02.ws.binary]   ret((*ws.Conn).NextReader, 1, 0) == ws.BinaryMessage && typeis($data, *types.BytesBuffer) && $data == ret(types.NewBytesBuffer, 1)
+//@     assert [C02.ws.complete] ret(io.ReaderFrom.ReadFrom, 1, 1) == nil && arg(io.ReaderFrom.ReadFrom, 1, this) == $data && arg(io.ReaderFrom.ReadFrom, 1, r) == ret((*ws.Conn).NextReader, 1, 1)
+//@   callsite (*websocket).onMessage#2
+//@     assert [C02.ws.text]     ret((*ws.Conn).NextReader, 1, 0) == ws.TextMessage && typeis($data, *types.StringBuffer) && $data == ret(types.NewStringBuffer, 1)
+//@     assert [C02.ws.completetext] ret(io.ReaderFrom.ReadFrom, 1, 1) == nil && arg(io.ReaderFrom.ReadFrom, 1, this) == $data && arg(io.ReaderFrom.ReadFrom, 1, r) == ret((*ws.Conn).NextReader, 1, 1)
+//@ func (*websocket).onMessage(data)
+//@   props C02
+//@   requires w != nil && w.Transport != nil
+//@   modifies *
+//@   ensures [C02.ws.deliver] calls(Transport.OnData) == 1 && arg(Transport.OnData, 1, data) == data
+
+//@ func (*websocket).Send(packets)
+//@   props C01
+//@   requires w != nil && w.Transport != nil
+//@   modifies w.Transport.$writable
+//@   ensures [C01.ws.sendclears] !w.Transport.$writable
+//@   callsite (*websocket).send#1
+//@     assert [C01.ws.sendbatch] $packets == packets && !w.Transport.$writable
+
+// the writer: every packet of the batch is written, in order, unless an error or close is signalled on the connection;
+// then drain, writable again, ready
+//@ func (*websocket).send(packets)
+//@   props C01, C09
+//@   requires wsOK(w)
+//@   requires forall k int :: 0 <= k && k < len(packets) ==> packets[k] != nil
+//@   modifies *
+//@   loop 1 invariant wsOK(w) && calls(types.EventEmitter.Emit) == 0
+//@   loop 1 invariant forall k int :: 0 <= k && k < len(packets) ==> packets[k] != nil
+//@   loop 1 invariant calls((*ws.Conn).WritePreparedMessage) + calls((*websocket).write) == $i
+//@   ensures [C01.ws.all]   calls(types.EventEmitter.Emit) == 2 ==> calls((*ws.Conn).WritePreparedMessage) + calls((*websocket).write) == len(packets)
+//@   ensures [C01.ws.ready] emitted(w.Transport, "drain") == 1 && emitted(w.Transport, "ready") == 1 && ncalls(Transport.SetWritable, writable) == 1
+//@   callsite (*websocket).write#1
+//@     assert [C01.ws.encoded] $data == ret(parser.Parser.EncodePacket, 1, 0) && ret(parser.Parser.EncodePacket, 1, 1) == nil && arg(parser.Parser.EncodePacket, 1, packet) == packet
+//@   callsite ws.NewPreparedMessage#1
+//@     assert [C01.ws.prekind]  $messageType == (typeis(packet.Options.WsPreEncodedFrame, *types.StringBuffer) ? ws.TextMessage : ws.BinaryMessage)
+//@     assert [C01.ws.prebytes] $data == ret(types.BufferInterface.Bytes, 1) && arg(types.BufferInterface.Bytes, 1, this) == packet.Options.WsPreEncodedFrame   // the shared pre-encoded buffer is read, not consumed
+//@   callsite (*ws.Conn).WritePreparedMessage#1
+//@     assert [C01.ws.prewrite] $pm == ret(ws.NewPreparedMessage, 1, 0) && ret(ws.NewPreparedMessage, 1, 1) == nil
+
+//@ func (*websocket).write(data, compress)
+//@   props C01
+//@   requires wsOK(w) && data != nil
+//@   modifies nothing
+//@   ensures [C01.ws.kind] calls((*ws.Conn).NextWriter) == 1 && arg((*ws.Conn).NextWriter, 1, messageType) == (typeis(data, *types.StringBuffer) ? ws.TextMessage : ws.BinaryMessage)
+//@   ensures [C01.ws.body] ret((*ws.Conn).NextWriter, 1, 1) == nil ==> calls(io.Copy) == 1 && arg(io.Copy, 1, src) == iface(data) && arg(io.Copy, 1, dst) == iface(ret((*ws.Conn).NextWriter, 1, 0)) && calls(io.Closer.Close) == 1
+//@   ensures [C01.ws.fail] ret((*ws.Conn).NextWriter, 1, 1) != nil ==> calls(io.Copy) == 0 && calls(types.EventEmitter.Emit) == 1
+
+//@ func (*websocket).DoClose(fn)
+//@   props C12
+//@   requires wsOK(w)
+//@   dyncall fn noeffect
+//@   modifies *
+//@   ensures [C12.ws.close] calls((*types.WebSocketConn).Close) == 1 && (fn != nil ==> calls(fn) == 1 && before(fn, 1, (*types.WebSocketConn).Close, 1))
